@@ -113,6 +113,26 @@ def check_one(run, s: str, multiline: bool, engine: str) -> bool:
         run.violation('the STRING token does not survive push_back / peek', witness={'first': [first[0].name, first[1]], 'again': [again[0].name, again[1]]},
                       case=case, engine=engine, key='lookahead-loses-token')
         return False
+    # another tokenizer object is dropped while it still holds a looked-ahead token (a parser that stopped early): the next,
+    # unrelated tokenizer starts clean
+    try:
+        other = _Tk('{ "left" "behind" }', allow_escapes=True)
+        if len(s) % 2:
+            other.peek()
+        else:
+            other.push_back(*other())
+        del other
+        toks = _tokens(quoted)
+    except Exception as exc:
+        run.violation(f'tokenizing after another tokenizer was dropped with a pending token raised {exc!r}', case=case, engine=engine,
+                      key='state-leaks-between-tokenizers')
+        return False
+    run.count('fresh_tokenizers_after_an_abandoned_one')
+    if len(toks) != 2 or toks[0][0] is not Token.STRING or toks[0][1] != s or toks[1][0] is not Token.EOF:
+        run.violation('a fresh tokenizer, created after another one was dropped with a pending look-ahead token, did not reproduce the string',
+                      witness={'escaped': esc, 'tokens': [(t.name, v) for t, v in toks][:6]}, case=case, engine=engine,
+                      key='state-leaks-between-tokenizers')
+        return False
     # "with escapes enabled": the constructor keyword above, and the public attribute switched on before the first token
     from srctools.tokenizer import Tokenizer
     try:
@@ -370,7 +390,7 @@ def main(run, shard=(0, 1)) -> None:
     probe.report(run)
     probe.check_reached(run)
     run.require('exhaustive_strings_x_modes', 'chunked_deliveries', 'embedded_line', 'embedded_kv', 'embedded_vmf', 'embedded_bsp', 'embedded_dmx', 'neighbour_contexts',
-                'strings_directly_after_a_directive')
+                'strings_directly_after_a_directive', 'fresh_tokenizers_after_an_abandoned_one')
 
 
 def replay(run, data) -> None:
